@@ -123,6 +123,77 @@ fn c05_finalize_input() {
     std::mem::forget(strat);
 }
 
+/// Custom([p1, p2]), both 3 bytes: the child strategy holds the remainder of EACH path that
+/// continues the key, in list order, and nothing else.
+#[kani::proof]
+#[kani::unwind(5)]
+fn c05_custom_two_paths_next_level() {
+    let p1 = sym_path3();
+    let p2 = sym_path3();
+    let k = sym_key1();
+    let kb = k.as_bytes()[0];
+    let c1 = p1.as_bytes()[0] == kb && (p1.as_bytes()[1] == b'.' || p1.as_bytes()[1] == b'[');
+    let c2 = p2.as_bytes()[0] == kb && (p2.as_bytes()[1] == b'.' || p2.as_bytes()[1] == b'[');
+    let l1 = if p1.as_bytes()[1] == b'.' { 1 } else { 2 };
+    let l2 = if p2.as_bytes()[1] == b'.' { 1 } else { 2 };
+    let (p1b2, p2b2) = (p1.as_bytes()[2], p2.as_bytes()[2]);
+    let mut paths: Vec<&str> = Vec::with_capacity(2);
+    paths.push(p1.as_str());
+    paths.push(p2.as_str());
+    let strat = Strat::Custom(paths);
+    let next = strat.next_level(k.as_str());
+    match &next {
+        Strat::Custom(v) => {
+            assert!(v.len() == (c1 as usize) + (c2 as usize), "C05.e1 the child strategy has one entry per path that continues the key");
+            if c1 { assert!(v[0].len() == l1 && v[0].as_bytes()[l1 - 1] == p1b2, "C05.e2 first continuing path keeps its remainder, first"); }
+            if c2 { let i = c1 as usize; assert!(v[i].len() == l2 && v[i].as_bytes()[l2 - 1] == p2b2, "C05.e3 second continuing path keeps its remainder, after the first"); }
+            kani::cover!(v.len() == 2, "both continue");
+            kani::cover!(v.len() == 0, "none continues");
+        }
+        _ => assert!(false, "C05.e4 Custom stays Custom"),
+    }
+    kani::cover!(true, "end");
+    std::mem::forget(next);
+    std::mem::forget(strat);
+}
+
+/// array positions: key "[0]" (what create_sd_claims_list asks), path = any 5 bytes over {[,0,1,],.,a}
+#[kani::proof]
+#[kani::unwind(7)]
+fn c05_custom_array_index_key() {
+    let s = sym_str::<5>(b'.', b'a');
+    let b = s.as_bytes();
+    let mut i = 0;
+    while i < 5 {
+        kani::assume(b[i] == b'[' || b[i] == b'0' || b[i] == b'1' || b[i] == b']' || b[i] == b'.' || b[i] == b'a');
+        i += 1;
+    }
+    let (b0, b1, b2, b3, b4) = (b[0], b[1], b[2], b[3], b[4]);
+    let mut paths: Vec<&str> = Vec::with_capacity(1);
+    paths.push(s.as_str());
+    let strat = Strat::Custom(paths);
+    assert!(!strat.sd_for_key("[0]"), "C05.f1 a 5-byte path never equals the 3-byte key [0]");
+    let next = strat.next_level("[0]");
+    let is_prefix = b0 == b'[' && b1 == b'0' && b2 == b']';
+    match &next {
+        Strat::Custom(v) => {
+            if is_prefix && b3 == b'.' {
+                assert!(v.len() == 1 && v[0].len() == 1 && v[0].as_bytes()[0] == b4, "C05.f2 `[0].x` continues below element 0 as `x`");
+            } else if is_prefix && b3 == b'[' {
+                assert!(v.len() == 1 && v[0].len() == 2 && v[0].as_bytes()[0] == b'[' && v[0].as_bytes()[1] == b4, "C05.f3 `[0][..` continues below element 0 from the `[`");
+            } else {
+                assert!(v.is_empty(), "C05.f4 a path for another element / not at a token boundary has no effect below element 0");
+            }
+            kani::cover!(v.len() == 1, "continues");
+            kani::cover!(v.is_empty(), "does not apply");
+        }
+        _ => assert!(false, "C05.f5 Custom stays Custom"),
+    }
+    kani::cover!(true, "end");
+    std::mem::forget(next);
+    std::mem::forget(strat);
+}
+
 // ---------------------------------------------------------------------------------------------
 // marking at one level: create_sd_claims_object on {"a":1,"b":2} with SDJWTDisclosure::new replaced
 // by the disclosure hook. The path is concrete per harness (a symbolic path makes the two marking
